@@ -25,6 +25,11 @@ RelClose(x, y) == FWithin(x, y, FAdd(FDivE4(FDivE4(FMulInt(FAbs(y), 100))), Nano
 MTimesAFix(x, s) == LET c0 == s[1]  c1 == s[2] \div 100000  c2 == (s[2] % 100000) \div 10 IN
                     FAdd(FMulInt(x, c0), FAdd(FDivE4(FMulInt(x, c1)), FDivE4(FDivE4(FMulInt(x, c2)))))
 
+(* a Fix mass lies on the grid of d decimals when its nano part is within 2e-9 of a multiple of 10^(9-d)           *)
+(* (the projection of a float adds less than that)                                                                *)
+RECURSIVE P10(_)
+P10(k) == IF k = 0 THEN 1 ELSE 10 * P10(k - 1)
+OffGrid(m, d) == LET unit == P10(9 - d)  r == m[2] % unit IN r > 2 /\ unit - r > 2
 (* k = "pattern": isotopic_distribution(comp, options) = ev.pattern *)
 (* ev.requested = distribution_abundance (Fix); ev.isSum; ev.pruned = some pruning option was set                *)
 PatternFails(ev) ==
@@ -39,6 +44,11 @@ PatternFails(ev) ==
          \cup (IF ~ev.pruned /\ ev.massView /\ ev.lightestFirst /\ Resolvable(c, TRUE)
                   /\ ~FWithin(p[1].m, CompMass(c, TRUE), Micro(20 + ev.resolutionSlack))
                THEN {"lightest_peak_is_not_the_monoisotopic_mass"} ELSE {})
+         (* at most max_isotopes peaks; masses on the resolution grid, each mass once *)
+         \cup (IF ev.maxIsotopes >= 0 /\ Len(p) > ev.maxIsotopes THEN {"more_peaks_than_max_isotopes"} ELSE {})
+         \cup (IF ev.gridDecimals >= 0 /\ ev.gridDecimals <= 8 /\ \E q \in 1..Len(p) : OffGrid(p[q].m, ev.gridDecimals)
+               THEN {"mass_not_rounded_to_the_resolution"} ELSE {})
+         \cup (IF ev.gridDecimals >= 0 /\ \E q \in 1..(Len(p) - 1) : p[q].m = p[q + 1].m THEN {"two_peaks_on_one_mass"} ELSE {})
          \cup (IF ~ev.pruned /\ ev.ncMassView /\ ev.lightestFirst /\ Resolvable(c, TRUE)
                   /\ ~FWithin(p[1].m, CompMass(c, TRUE), Micro(20))
                THEN {"lightest_peak_of_the_neutron_view_is_not_the_monoisotopic_mass"} ELSE {})
